@@ -8,12 +8,14 @@ Inductive sop :=
 | SPut (name : runes) (stack : bytes) (c : N) (t : N)   (* Put(ParseKey(name), tree {stack: c}) over [t, t+10), t unix seconds *)
 | SDelete (name : runes)                                (* Delete(ParseKey(name)) *)
 | SRetain (threshold : N)                               (* DeleteDataBefore(time.Unix(threshold, 0)): a retention pass *)
-| SRestart.                                             (* graceful restart: Close, New on the same directory *)
+| SRestart                                              (* graceful restart: Close, New on the same directory *)
+| SEvict.                                               (* the whole dimensions cache is evicted to disk; later uses reload *)
 
 Inductive case :=
 (* dimension level: per dimension the Insert/Delete calls, then VerifKeys; for several argument orders
    (lists of indices into the family) what Intersection and Union returned *)
 | CDim (ops : list (list dop)) (keys : list (list bytes))
+       (reread : list (option (list bytes)))   (* VerifKeys of FromBytes(Bytes()) per dimension; None = error *)
        (orders : list (list nat * list bytes * list bytes))
 (* storage level: a history through the real Storage, then Get for selectors, GetKeys, GetValues per key,
    and the dump of some dimensions (by cache key "k:v") *)
@@ -97,6 +99,7 @@ Definition trans_step (acc : list iop * ups_t) (o : sop) : list iop * ups_t :=
   | SRetain T => let ex := expired_series T (snd acc) in
                  ((fst acc ++ map IDrop ex)%list, filter (fun x => negb (existsb (labels_eqb (fst x)) ex)) (snd acc))
   | SRestart => acc                (* nothing observable may change *)
+  | SEvict => acc
   end.
 Definition to_iops (l : list sop) : list iop := fst (fold_left trans_step l ([], [])).
 
@@ -142,11 +145,14 @@ Definition spec_or_known (sig : bool) (b : bool) (what : string) : verdict :=
 
 Definition check_case (c : case) : verdict :=
   match c with
-  | CDim ops keys orders =>
+  | CDim ops keys reread orders =>
       let sets := map spec_set ops in
       let mdims := map run_dops ops in
       combine_verdicts (
         [ spec (list_eqb bl_eqb keys sets) "a dimension is not the sorted set of the keys inserted and not deleted";
+          spec (Nat.eqb (List.length reread) (List.length sets) &&
+                forallb (fun ab => match fst ab with Some x => bl_eqb x (snd ab) | None => false end) (combine reread sets))
+            "a dimension written with Bytes() and read back with FromBytes() is not the same set of keys";
           corr (list_eqb bl_eqb mdims keys) "d_insert/d_delete model differs from Dimension.Insert/Delete" ]
         ++ flat_map (check_order sets mdims) orders)
   | CStore sops gets keys values dims hkeys hvalues hide =>
